@@ -357,10 +357,13 @@ fn cmd_check(args: &[String]) {
     // 2. seeded search
     let mut reports: Vec<EngineReport> = Vec::new();
     let mut violated = false;
+    let n_engines = plan.len().max(1) as f64;
     for (eng, q, t) in plan {
         let runs = ((if tier == Tier::Quick { q } else { t }) as f64 * scale) as u64;
-        // safety nets only: budgets are run counts, sized so that the caps are not reached on an idle machine
-        let wall_cap_s = if tier == Tier::Quick { 900.0 } else { 5400.0 };
+        // safety nets only: budgets are run counts, sized so that the caps are not reached on an idle machine.
+        // A check as a whole stays below 15 min (quick) / 40 min (thorough) however loaded the machine is; an
+        // engine that reaches its share stops taking new runs and says so (`capped_by_wall_clock`).
+        let wall_cap_s = (if tier == Tier::Quick { 900.0 } else { 2400.0 }) / n_engines;
         let params = Params { focus: &prop, tier, seed, runs: runs.max(1), jobs, wall_cap_s, known: &known };
         let rep = with_engine!(eng, e => runner::run_engine(e, &params));
         out!(
